@@ -4,7 +4,7 @@ import MakoModel.Target.Shape
 
 `Bal i top rest σ σ'`: from a state whose buffer stack is `(i, top) :: rest`, the state `σ'` has the buffer
 stack `(i, top ++ w) :: rest` for some `w` (the top buffer only grew, lower buffers untouched, nothing left
-pushed), the same caller stack, the same loop stack, and `nextcaller` either as before or `None`.
+pushed), the same caller stack, the same loop stack, and the same `nextcaller`.
 
 `all_good`: by induction on the fuel, simultaneously for statements, expressions, argument lists, calls,
 loop iterations and callable bodies: every execution that ends (outcome ≠ timeout) – normally, by `return`,
@@ -16,7 +16,7 @@ structure Bal (i : Nat) (top : Str) (rest : List (Nat × Str)) (σ σ' : St) : P
   bufs : ∃ w, σ'.bufs = (i, top ++ w) :: rest
   frames : σ'.frames = σ.frames
   loops : σ'.loops = σ.loops
-  next : σ'.next = σ.next ∨ σ'.next = []
+  next : σ'.next = σ.next
   ok : StOK σ'
 
 /-- as `Bal`, but the top loop context may have advanced (`for x in loop`) -/
@@ -24,21 +24,16 @@ structure BalT (i : Nat) (top : Str) (rest : List (Nat × Str)) (σ σ' : St) : 
   bufs : ∃ w, σ'.bufs = (i, top ++ w) :: rest
   frames : σ'.frames = σ.frames
   loops : σ'.loops.tail = σ.loops.tail ∧ (σ'.loops = [] ↔ σ.loops = [])
-  next : σ'.next = σ.next ∨ σ'.next = []
+  next : σ'.next = σ.next
   ok : StOK σ'
 
 theorem Bal.refl {i top rest σ} (h : σ.bufs = (i, top) :: rest) (ok : StOK σ) : Bal i top rest σ σ :=
-  ⟨⟨[], by simp [h]⟩, rfl, rfl, .inl rfl, ok⟩
+  ⟨⟨[], by simp [h]⟩, rfl, rfl, rfl, ok⟩
 
 theorem Bal.trans {i top rest σ σ1 σ2 w} (h1 : Bal i top rest σ σ1) (_hw : σ1.bufs = (i, top ++ w) :: rest)
     (h2 : Bal i (top ++ w) rest σ1 σ2) : Bal i top rest σ σ2 := by
   obtain ⟨w2, hw2⟩ := h2.bufs
-  refine ⟨⟨w ++ w2, by simp [hw2]⟩, h2.frames.trans h1.frames, h2.loops.trans h1.loops, ?_, h2.ok⟩
-  rcases h2.next with h | h
-  · rcases h1.next with h' | h'
-    · exact .inl (h.trans h')
-    · exact .inr (h.trans h')
-  · exact .inr h
+  refine ⟨⟨w ++ w2, by simp [hw2]⟩, h2.frames.trans h1.frames, h2.loops.trans h1.loops, h2.next.trans h1.next, h2.ok⟩
 
 theorem Bal.toT {i top rest σ σ'} (h : Bal i top rest σ σ') : BalT i top rest σ σ' :=
   ⟨h.bufs, h.frames, by simp [h.loops], h.next, h.ok⟩
@@ -47,7 +42,7 @@ theorem Bal.toT {i top rest σ σ'} (h : Bal i top rest σ σ') : BalT i top res
 theorem Bal.of_eq {i top rest σ σ' σ''} (h : Bal i top rest σ σ') (hb : σ''.bufs = σ'.bufs)
     (hf : σ''.frames = σ'.frames) (hl : σ''.loops = σ'.loops) (hn : σ''.next = σ'.next) :
     Bal i top rest σ σ'' := by
-  refine ⟨by rw [hb]; exact h.bufs, hf.trans h.frames, hl.trans h.loops, by rw [hn]; exact h.next, ?_⟩
+  refine ⟨by rw [hb]; exact h.bufs, hf.trans h.frames, hl.trans h.loops, hn.trans h.next, ?_⟩
   exact ⟨by rw [hf]; exact h.ok.frames, by rw [hn]; exact h.ok.next⟩
 
 theorem StOK.of_eq {σ σ' : St} (h : StOK σ) (hf : σ'.frames = σ.frames) (hn : σ'.next = σ.next) : StOK σ' :=
@@ -293,7 +288,7 @@ theorem eval_good (n : Nat) (ih : ∀ m, m < n + 1 → All c m) (hc : CfgOK c) :
           have b1 := b1 (by simp)
           obtain ⟨w, hw⟩ := b1.bufs
           have : Bal i top rest σ { σ1 with bufs := writeTop ['[', 'H', ']'] σ1.bufs } :=
-            b1.trans hw ⟨⟨['[', 'H', ']'], by simp [hw, writeTop]⟩, rfl, rfl, .inl rfl, b1.ok.of_eq rfl rfl⟩
+            b1.trans hw ⟨⟨['[', 'H', ']'], by simp [hw, writeTop]⟩, rfl, rfl, rfl, b1.ok.of_eq rfl rfl⟩
           split at he <;> (simp only [Prod.mk.injEq] at he; obtain ⟨_, rfl⟩ := he; exact this)
         | val v => simp only [hieh, Prod.mk.injEq] at he; obtain ⟨rfl, rfl⟩ := he; exact b1 hr
         | timeout => simp only [hieh, Prod.mk.injEq] at he; obtain ⟨rfl, rfl⟩ := he; exact b1 hr
@@ -352,7 +347,7 @@ theorem invoke_good (n : Nat) (ih : ∀ m, m < n + 1 → All c m) : InvokeGood c
     | false =>
       simp only at he
       generalize hl2 : ({ vars := bound ++ l.vars, funs := l.funs, writer := l.writer, mbuf := [],
-                          caller := clo.lex, lexc := clo.lex, useLex := clo.fn.fl.lex, mod := clo.mod } : Loc) = l2 at he
+                          caller := clo.lex, lexc := clo.lex, savedNext := [], useLex := clo.fn.fl.lex, mod := clo.mod } : Loc) = l2 at he
       have hl' : LocOK l2 := by subst hl2; exact ⟨hl.funs, hx, hx⟩
       cases hown : clo.fn.fl.ownLoops with
       | false =>
@@ -386,12 +381,7 @@ theorem invoke_good (n : Nat) (ih : ∀ m, m < n + 1 → All c m) : InvokeGood c
         have b2 := A.body _ _ { σ0 with loops := [] } i _ rest hf hl' (b0.ok.of_eq rfl rfl) hw0 _ _ _ hex hto
         have b3 : Bal i top rest σ { σ2 with loops := σ0.loops } := by
           obtain ⟨w2, hw2⟩ := b2.bufs
-          refine ⟨⟨w0 ++ w2, by simp [hw2]⟩, b2.frames.trans b0.frames, b0.loops, ?_, b2.ok.of_eq rfl rfl⟩
-          rcases b2.next with h | h
-          · rcases b0.next with h' | h'
-            · exact .inl (h.trans h')
-            · exact .inr (h.trans h')
-          · exact .inr h
+          refine ⟨⟨w0 ++ w2, by simp [hw2]⟩, b2.frames.trans b0.frames, b0.loops, b2.next.trans b0.next, b2.ok.of_eq rfl rfl⟩
         obtain ⟨w3, hw3⟩ := b3.bufs
         cases o with
         | timeout => exact absurd rfl hto
@@ -408,16 +398,11 @@ theorem BalT.trans {i top rest σ σ1 σ2 w} (h1 : BalT i top rest σ σ1) (_hw 
     (h2 : BalT i (top ++ w) rest σ1 σ2) : BalT i top rest σ σ2 := by
   obtain ⟨w2, hw2⟩ := h2.bufs
   refine ⟨⟨w ++ w2, by simp [hw2]⟩, h2.frames.trans h1.frames, ⟨h2.loops.1.trans h1.loops.1, h2.loops.2.trans h1.loops.2⟩,
-    ?_, h2.ok⟩
-  rcases h2.next with h | h
-  · rcases h1.next with h' | h'
-    · exact .inl (h.trans h')
-    · exact .inr (h.trans h')
-  · exact .inr h
+    h2.next.trans h1.next, h2.ok⟩
 
 theorem bump_balT {i top rest σ} (h : σ.bufs = (i, top) :: rest) (ok : StOK σ) :
     BalT i top rest σ { σ with loops := bumpTop σ.loops } :=
-  ⟨⟨[], by simp [h]⟩, rfl, ⟨bumpTop_tail _, bumpTop_nil _⟩, .inl rfl, ok.of_eq rfl rfl⟩
+  ⟨⟨[], by simp [h]⟩, rfl, ⟨bumpTop_tail _, bumpTop_nil _⟩, rfl, ok.of_eq rfl rfl⟩
 
 theorem iter_good (n : Nat) (ih : ∀ m, m < n + 1 → All c m) : IterGood c (n + 1) := by
   intro x vs body ctx l σ i top rest hs hl hσ hb hw o l' σ' he ho
@@ -506,7 +491,7 @@ theorem exec_good (n : Nat) (ih : ∀ m, m < n + 1 → All c m) : ExecGood c (n 
       simp only [Prod.mk.injEq] at he; obtain ⟨_, rfl, rfl⟩ := he
       have b1 := b1 (by simp)
       obtain ⟨w, hw1⟩ := b1.bufs
-      refine ⟨b1.trans hw1 ⟨⟨v, ?_⟩, rfl, rfl, .inl rfl, b1.ok.of_eq rfl rfl⟩, hl, hw⟩
+      refine ⟨b1.trans hw1 ⟨⟨v, ?_⟩, rfl, rfl, rfl, b1.ok.of_eq rfl rfl⟩, hl, hw⟩
       simp [hw1, hw, writeTo]
     | exc e => simp only [Prod.mk.injEq] at he; obtain ⟨_, rfl, rfl⟩ := he; exact ⟨b1 (by simp), hl, hw⟩
     | timeout => simp only [Prod.mk.injEq] at he; exact absurd he.1.symm ho
@@ -687,12 +672,7 @@ theorem exec_good (n : Nat) (ih : ∀ m, m < n + 1 → All c m) : ExecGood c (n 
           | cons lc r => simp only [hls, List.tail_cons] at h1; exact ⟨lc, by rw [h1]⟩
         obtain ⟨lc, hlc⟩ := hloops
         have bfin : Bal i top rest σ { σ2 with loops := σ1.loops } := by
-          refine ⟨⟨w ++ w2, by simp [hw2']⟩, b2.frames.trans b1.frames, b1.loops, ?_, b2.ok.of_eq rfl rfl⟩
-          rcases b2.next with h | h
-          · rcases b1.next with h' | h'
-            · exact .inl (h.trans h')
-            · exact .inr (h.trans h')
-          · exact .inr h
+          refine ⟨⟨w ++ w2, by simp [hw2']⟩, b2.frames.trans b1.frames, b1.loops, b2.next.trans b1.next, b2.ok.of_eq rfl rfl⟩
         have hfin : execPrim .loopExit l2 σ2 = (.normal, l2, { σ2 with loops := σ1.loops }) := by
           simp [execPrim, hlc]
         cases o2 <;> simp only [hfin, Prod.mk.injEq] at he <;>
@@ -731,12 +711,7 @@ theorem exec_good (n : Nat) (ih : ∀ m, m < n + 1 → All c m) : ExecGood c (n 
         { σ1 with bufs := (i, top) :: rest } i top rest (WS.write e) ⟨hl1.funs, hl1.caller, hl1.lexc⟩
         (b1.ok.of_eq rfl rfl) rfl rfl o2 l2 σ2 h2 ho2
       refine ⟨?_, hl2, hw2⟩
-      refine ⟨b2.bufs, b2.frames.trans b1.frames, b2.loops.trans b1.loops, ?_, b2.ok⟩
-      rcases b2.next with h | h
-      · rcases b1.next with h' | h'
-        · exact .inl (h.trans h')
-        · exact .inr (h.trans h')
-      · exact .inr h
+      refine ⟨b2.bufs, b2.frames.trans b1.frames, b2.loops.trans b1.loops, b2.next.trans b1.next, b2.ok⟩
     cases o1 <;> simp only at he <;> (try exact absurd rfl hto) <;>
     ( generalize hz : exec c n1 (.seq (.prim .popBufferAndWriter) (.write e)) l1 σ1 = z at he
       obtain ⟨o2, l2, σ2⟩ := z
@@ -749,31 +724,44 @@ theorem exec_good (n : Nat) (ih : ∀ m, m < n + 1 → All c m) : ExecGood c (n 
     rename_i d
     rcases n with _ | n1
     · simp only [exec, Prod.mk.injEq] at he; exact absurd he.1.symm ho
-    have A1 := ih n1 (by omega)
     simp only [exec] at he
+    rcases n1 with _ | n2
+    · simp only [exec, execPrim, Prod.mk.injEq] at he; exact absurd he.1.symm ho
+    simp only [exec, execPrim] at he
+    rcases n2 with _ | n3
+    · simp only [exec, Prod.mk.injEq] at he; exact absurd he.1.symm ho
+    have A3 := ih n3 (by omega)
+    simp only [exec, execPrim] at he
+    -- the activation's `__M_nextcaller` now holds the pending caller; it is put back on every exit path
     have hσ1 : StOK { σ with next := ⟨collectDefs d, l.mod⟩ :: l.caller } := by
       refine ⟨hσ.frames, ?_⟩
       intro layer hlay
       rcases List.mem_cons.mp hlay with rfl | h
       · exact collectDefs_ok hd
       · exact hl.caller layer h
-    generalize hx : exec c n1 (.write e) l _ = y at he
-    obtain ⟨o1, l1, σ1⟩ := y
-    have hto : o1 ≠ .timeout := by
-      rintro rfl
+    generalize hx : eval c n3 e _ _ = y at he
+    obtain ⟨r, σ1⟩ := y
+    have b1 := A3.eval e { l with savedNext := σ.next } { σ with next := ⟨collectDefs d, l.mod⟩ :: l.caller } i top rest
+      ⟨hl.funs, hl.caller, hl.lexc⟩ hσ1 hb _ _ hx
+    have key : ∀ σ2 : St, (∃ w, σ2.bufs = (i, top ++ w) :: rest) → σ2.frames = σ.frames → σ2.loops = σ.loops →
+        StOK σ2 → Bal i top rest σ { σ2 with next := σ.next } := by
+      intro σ2 hb2 hf2 hl2 ok2
+      exact ⟨hb2, hf2, hl2, rfl, ⟨ok2.frames, hσ.next⟩⟩
+    cases r with
+    | timeout => simp only [Prod.mk.injEq] at he; exact absurd he.1.symm ho
+    | exc e' =>
+      have b1 := b1 (by simp)
       simp only [Prod.mk.injEq] at he
-      exact ho he.1.symm
-    obtain ⟨b1, hl1, hw1⟩ := A1.exec (.write e) l { σ with next := ⟨collectDefs d, l.mod⟩ :: l.caller } i top rest
-      (WS.write e) hl hσ1 hb hw _ _ _ hx hto
-    have bfin : Bal i top rest σ { σ1 with next := [] } :=
-      ⟨b1.bufs, b1.frames, b1.loops, .inr rfl, ⟨b1.ok.frames, NSOK_nil⟩⟩
-    rcases n1 with _ | n2
-    · simp only [exec, Prod.mk.injEq] at hx; exact absurd hx.1.symm hto
-    simp only [exec, execPrim] at he
-    cases o1 <;> simp only [Prod.mk.injEq] at he <;>
-      first
-      | exact absurd rfl hto
-      | (obtain ⟨_, rfl, rfl⟩ := he; exact ⟨bfin, hl1, hw1⟩)
+      obtain ⟨_, rfl, rfl⟩ := he
+      exact ⟨key σ1 b1.bufs b1.frames b1.loops b1.ok, ⟨hl.funs, hl.caller, hl.lexc⟩, hw⟩
+    | val v =>
+      have b1 := b1 (by simp)
+      obtain ⟨w, hw'⟩ := b1.bufs
+      simp only [Prod.mk.injEq] at he
+      obtain ⟨_, rfl, rfl⟩ := he
+      refine ⟨key { σ1 with bufs := writeTo l.writer v σ1.bufs } ⟨w ++ v, ?_⟩ b1.frames b1.loops (b1.ok.of_eq rfl rfl),
+        ⟨hl.funs, hl.caller, hl.lexc⟩, hw⟩
+      simp [hw', hw, writeTo]
 
 /-- a prologue of closure definitions only extends the locals -/
 theorem exec_defs : ∀ (d : Stmt) (n : Nat) (l : Loc) (σ : St) (o : Outcome) (l' : Loc) (σ' : St),
@@ -902,9 +890,7 @@ theorem core_good (m : Nat) (ih : ∀ k, k < m → All c k) {pre b : Stmt} (p : 
       (i := σ.nextId) (top := []) (rest := (i, top) :: rest) (by simp [hb]) hx h1
     obtain ⟨w, hw⟩ := b1.bufs
     refine ⟨w, by simpa using hw, by rw [b1.frames]; exact hf, ?_, b1.loops, hl1⟩
-    rcases b1.next with h | h
-    · rw [h]; exact hn
-    · exact h
+    rw [b1.next]; exact hn
   have hF : ∀ l1 σ1 w o2 l2 σ2, σ1.bufs = (σ.nextId, w) :: (i, top) :: rest → σ1.frames = f :: fr → LocOK l1 →
       exec c m1 (.seq (.prim p) (.prim .popFrame)) l1 σ1 = (o2, l2, σ2) → o2 ≠ .timeout →
       o2 = .normal ∧ σ2.bufs = (i, top) :: rest ∧ σ2.frames = fr ∧ σ2.next = f ∧ σ2.loops = σ1.loops ∧ LocOK l2 ∧
@@ -962,7 +948,7 @@ theorem body_good (n : Nat) (ih : ∀ m, m < n + 1 → All c m) : BodyGood c (n 
           · exact hσ.frames f h, NSOK_nil⟩ hb hx hto
     have hfr : σ1.frames = σ.next :: σ.frames := b1.frames
     have bfin : Bal i top rest σ { σ1 with frames := σ.frames, next := σ.next } :=
-      ⟨b1.bufs, rfl, b1.loops, .inl rfl, ⟨hσ.frames, hσ.next⟩⟩
+      ⟨b1.bufs, rfl, b1.loops, rfl, ⟨hσ.frames, hσ.next⟩⟩
     rcases n1 with _ | n2
     · simp only [exec, Prod.mk.injEq] at hx; exact absurd hx.1.symm hto
     simp only [exec, execPrim, hfr] at he
@@ -988,7 +974,7 @@ theorem body_good (n : Nat) (ih : ∀ m, m < n + 1 → All c m) : BodyGood c (n 
     have fin : o1 ≠ .timeout → Bal i top rest σ σ1 ∧ LocOK l1 := by
       intro h1
       obtain ⟨h1, h2, h3, h4, h5, _⟩ := core h1
-      exact ⟨⟨⟨[], by simp [h1]⟩, h2, h4, .inl h3, ⟨by rw [h2]; exact hσ.frames, by rw [h3]; exact hσ.next⟩⟩, h5⟩
+      exact ⟨⟨⟨[], by simp [h1]⟩, h2, h4, h3, ⟨by rw [h2]; exact hσ.frames, by rw [h3]; exact hσ.next⟩⟩, h5⟩
     cases o1 with
     | timeout => simp only [Prod.mk.injEq] at he; exact absurd he.1.symm ho
     | normal =>
@@ -1030,7 +1016,7 @@ theorem body_good (n : Nat) (ih : ∀ m, m < n + 1 → All c m) : BodyGood c (n 
     have fin : o1 ≠ .timeout → Bal i top rest σ σ1 ∧ LocOK l1 ∧ l1.writer = i := by
       intro h1
       obtain ⟨h1, h2, h3, h4, h5, h6⟩ := core h1
-      exact ⟨⟨⟨[], by simp [h1]⟩, h2, h4, .inl h3, ⟨by rw [h2]; exact hσ.frames, by rw [h3]; exact hσ.next⟩⟩, h5, h6 rfl⟩
+      exact ⟨⟨⟨[], by simp [h1]⟩, h2, h4, h3, ⟨by rw [h2]; exact hσ.frames, by rw [h3]; exact hσ.next⟩⟩, h5, h6 rfl⟩
     cases o1 with
     | timeout => simp only [Prod.mk.injEq] at he; exact absurd he.1.symm ho
     | normal =>
